@@ -255,10 +255,16 @@ func (t *Chain) SubmitTx(ctx xctx.XContext, tx *lpb.Transaction) error {
 	t.txIdCache.Set(string(tx.GetTxid()), true, TxIdCacheExpired)
 
 	// 验证交易
-	_, err := t.ctx.State.VerifyTx(tx)
+	valid, err := t.ctx.State.VerifyTx(tx)
 	if err != nil {
 		log.Error("verify tx error", "txid", utils.F(tx.GetTxid()), "err", err)
 		return common.ErrTxVerifyFailed.More("err:%v", err)
+	}
+	if !valid {
+		// VerifyTx can say "not valid" without an error (a transaction relying
+		// on a marked one, refused by the ordinary verification)
+		log.Error("verify tx failed", "txid", utils.F(tx.GetTxid()))
+		return common.ErrTxVerifyFailed.More("err:%v", "tx not valid")
 	}
 
 	// 提交交易
